@@ -261,19 +261,25 @@ class Prop(object):
         from props import c21
         ctx.corr_names.append("REAL Deserialiser -> Serialiser on random description programs and RANDOM bit strings: the bits consumed are reproduced")
         frng = ctx.rng("c06fw")
+        dl, de = [], []
         for _ in range(ctx.n(600, 8000)):
             stmts, _c = c21.make_case(frng)
-            nb = frng.randrange(0, 400)
+            nb = 8 * frng.randrange(0, 50)
             style = frng.random()
             p1 = 0.5 if style < 0.4 else (0.85 if style < 0.7 else 0.15)
             bits = [frng.random() < p1 for _ in range(nb)]
             res, why = framework_des_ser(stmts, bits)
+            # the same deserialisation on the model (bounded-block overrun included)
+            d = c21.real_deserialise(stmts, bits)
+            dl.append("sd D %s :: %s" % (" ".join(c21.show_stmts(stmts)), "".join("1" if b else "0" for b in bits) or "-"))
+            de.append("OK %s| %d" % (c21.canon(d[1])[2:-1], len(bits) - d[2]) if d[0] == "OK" else "FAIL")
             ctx.evaluations += 1
             ctx.count("framework:%s" % res)
             if res == "ok":
                 ctx.distinct.add(hash((" ".join(c21.show_stmts(stmts)), tuple(bits))))
             if res == "violation" and not self._bad:
                 self._bad = {"kind": "framework", "program": c21.show_stmts(stmts), "bits": "".join("1" if b else "0" for b in bits), "why": why}
+        ctx.diff("sd deserialise RANDOM bit strings with random programs (values completed by 1-bits past the end of bounded blocks): model == real Deserialiser", dl, de)
         # byte-level round trip on the real code
         ctx.corr_names.append("REAL deserialise -> serialise -> compare bytes -> re-deserialise on conformant streams and their mutations")
         seeds = seed_streams()
